@@ -27,6 +27,7 @@ package kvql
 //@   ensures err != nil ==> len(rows) == 0 && pcur(p) == old(pcur(p))
 //@   ensures (failed ==> err == lastErr) && (err == nil ==> !failed)
 //@   ensures[C05] nokeys: err == nil && len(rows) > 0 && ctx != nil && ctx.EnableCache && ctx.FieldChunkKeyCaches != nil ==> (forall q B :: !has(ctx.FieldChunkKeyCaches, q))
+//@   ensures finalcols: err == nil && ctx != nil && ctx.EnableCache ==> (forall q B :: has(ctx.FieldChunkCaches, q) ==> len(ctx.FieldChunkCaches[q]) >= len(rows))
 //
 //@ iface (p Plan) Next(ctx *ExecuteCtx) (key []byte, value []byte, err error)
 //@   requires nofail: !failed
